@@ -297,6 +297,29 @@ func c17cidr(c *an.Ctx) {
 			}
 		}
 	})
+	// the address the gate tests is the connection's: net.ParseIP(host) with host from net.SplitHostPort(req.RemoteAddr)
+	remoteF := c.P.Field("net/http", "Request", "RemoteAddr")
+	an.Instrs(fn, func(in ssa.Instruction) {
+		call, ok := in.(*ssa.Call)
+		if !ok || !an.StdCallee(call, "net", "(*IPNet).Contains") {
+			return
+		}
+		fromConn := an.OriginsAll(arg(call, 0), func(o ssa.Value) bool {
+			pc, ok := o.(*ssa.Call)
+			if !ok || !an.StdCallee(pc, "net", "ParseIP") {
+				return false
+			}
+			return an.OriginsAll(pc.Call.Args[0], func(h ssa.Value) bool {
+				ex, ok := h.(*ssa.Extract)
+				if !ok || ex.Index != 0 {
+					return false
+				}
+				sc, ok := ex.Tuple.(*ssa.Call)
+				return ok && an.StdCallee(sc, "net", "SplitHostPort") && isLoadOfField(sc.Call.Args[0], remoteF)
+			})
+		})
+		c.Check(fromConn, fn, "gate tests the connection's address", call.Pos(), "", "the address tested against AllowConfigFromCIDR does not come from req.RemoteAddr alone: anything the client can write (X-Forwarded-For, X-Real-IP) lets a request from outside name an address inside")
+	})
 	for _, target := range []*ssa.Function{swap, getOpt} {
 		if target == nil {
 			c.Anchor("nsqadmin swapOpts/getOptByCfgName")
